@@ -154,6 +154,27 @@ fn ledgers_part(ctx: &mut Ctx) {
             }
             if rep_all.tax_years.len() >= 2 { ctx.ev.nontrivial.insert(ledger::dsl(&l)); }
         }
+        // a year the exemption table covers must be reportable on its own even when another year of the
+        // history is not covered (the all-years report is then refused, naming that other year): its
+        // disposals, legs and totals are those of the all-years report under a table that covers every year
+        if let Ok(Err(e)) = &all_raw {
+            if rep::classify_err(e).kind == "unsupportedExemptionYear" {
+                if let Ok(Ok(wide)) = run_impl::impl_calc_raw(&l, None, &ex_wide) {
+                    for t in wide.tax_years.iter().filter(|t| ex.iter().any(|e| e.0 == t.period.start_year())).take(2) {
+                        let y = t.period.start_year() as i32;
+                        ctx.ev.count("covered-year-of-a-partly-uncovered-history");
+                        match run_impl::impl_calc_raw(&l, Some(y), ex) {
+                            Ok(Ok(one)) => {
+                                let same = one.tax_years.len() == 1 && one.tax_years[0].disposals == t.disposals && one.tax_years[0].total_gain == t.total_gain && one.tax_years[0].total_loss == t.total_loss && one.tax_years[0].net_gain == t.net_gain;
+                                if !same { ctx.ev.violation("oracle", format!("the report for {y} differs from that year's disposals and totals in the all-years report"), replay_text(prop, "oracle: embedded exemption table; all-years reference computed with a table covering every year", "year filter is not the all-years slice", &l, &[format!("year filter {y}"), format!("case {name}")])); }
+                            }
+                            Ok(Err(e2)) => ctx.ev.violation("oracle", format!("tax year {y} has an exemption configured, yet its report is refused ({}) because another year of the history has none", e2.to_string().lines().next().unwrap_or("")), replay_text(prop, "oracle: cgt-tool report in.cgt --year <that year> (embedded exemption table)", "a covered year must be reportable on its own", &l, &[format!("year filter {y}"), format!("case {name}")])),
+                            Err(p) => ctx.ev.violation("crash", p.clone(), replay_text(prop, "crash", &p, &l, &[format!("year filter {y}")])),
+                        }
+                    }
+                }
+            }
+        }
         // year filters: years with disposals, a year without, outside the table, outside 1900–2100
         let mut years: Vec<i32> = match &all_raw { Ok(Ok(x)) => x.tax_years.iter().map(|y| y.period.start_year() as i32).collect(), _ => vec![] };
         years.push(2024 + r.range(-30, 30) as i32);
@@ -211,7 +232,7 @@ fn ledgers_part(ctx: &mut Ctx) {
 }
 
 pub fn run(ctx: &mut Ctx) {
-    ctx.ev.rule = "part 1: dates 1899-01-01..2101-12-31 (quick: every date within ±5 days of 6 April, month/leap/year ends, plus every 11th other date; thorough: every date, exhaustive): TaxPeriod::from_date vs the 6-April rule, and chrono ordinal/validity/tax year vs the model. part 2: generated ledgers (some shifted to 1899/1900/2100/2101; one in three with a security sold in tax years separated by whole years without disposals) × year filters {each year with disposals, a random year, one of 1899,1900,2100,2101,0,-1,65535,65536,70000,±300000}: filtered report == slice of the all-years report, holdings equal, impl == model. Non-trivial = boundary date, or ledger with ≥ 2 tax years.".into();
+    ctx.ev.rule = "part 1: dates 1899-01-01..2101-12-31 (quick: every date within ±5 days of 6 April, month/leap/year ends, plus every 11th other date; thorough: every date, exhaustive): TaxPeriod::from_date vs the 6-April rule, and chrono ordinal/validity/tax year vs the model. part 2: generated ledgers (some shifted to 1899/1900/2100/2101; one in three with a security sold in tax years separated by whole years without disposals) × year filters {each year with disposals, a random year, one of 1899,1900,2100,2101,0,-1,65535,65536,70000,±300000}: filtered report == slice of the all-years report, holdings equal, impl == model; when the all-years report is refused for a year without an exemption, each covered year is still reportable on its own and equals its slice of the all-years report under a table covering every year. Non-trivial = boundary date, or ledger with ≥ 2 tax years.".into();
     dates_part(ctx);
     ledgers_part(ctx);
 }
